@@ -13,6 +13,8 @@ import (
 	"time"
 
 	sdkmath "cosmossdk.io/math"
+	hyputil "github.com/bcp-innovations/hyperlane-cosmos/util"
+	gogoproto "github.com/cosmos/gogoproto/proto"
 	warptypes "github.com/bcp-innovations/hyperlane-cosmos/x/warp/types"
 	cctptypes "github.com/circlefin/noble-cctp/x/cctp/types"
 	ftftypes "github.com/circlefin/noble-fiattokenfactory/x/fiattokenfactory/types"
@@ -49,6 +51,7 @@ type Op struct {
 	// block
 	Dt   int    `json:"dt,omitempty"`
 	Perm uint64 `json:"perm,omitempty"`
+	Sim    uint64 `json:"sim,omitempty"`    // bit i set: tx i of the block is first simulated (gas estimation) on the node; the result is discarded
 	Inject string `json:"inject,omitempty"` // mode B: "<call index>:<1 before|2 after>" failing one downstream call in this block
 	// admin (orbiter, FTF, CCTP, warp) and impostor
 	Msg    string   `json:"msg,omitempty"`
@@ -62,6 +65,7 @@ type Op struct {
 	Dom    uint32   `json:"dom,omitempty"`
 	Raw    string   `json:"raw,omitempty"` // base64 packet data (byz)
 	Note   string   `json:"note,omitempty"`
+	Ghost  bool     `json:"ghost,omitempty"` // hyptoken: the transaction is only simulated on the node, never delivered
 	Fail   bool     `json:"fail,omitempty"` // admin: append a message that fails, so the whole tx is rolled back
 }
 
@@ -163,6 +167,8 @@ func (s *Sim) Exec(op Op) {
 		s.execDust(op)
 	case "admin":
 		s.execAdmin(op)
+	case "hyptoken":
+		s.execHypToken(op)
 	case "checkpoint":
 		s.flushBlockIfPending()
 		s.checkpoint(op)
@@ -444,6 +450,60 @@ func (s *Sim) execAdmin(op Op) {
 		gas = op.Gas
 	}
 	s.enqueue(&PendingTx{Signer: signer, Gas: gas, Msgs: msgs, Meta: &txMeta{OpID: op.ID, Kind: kind, Op: op}})
+}
+
+// predictTokenID asks the node which identifier the next Hyperlane token would get (a simulation
+// of the creating message against the committed state).
+func (s *Sim) predictTokenID(denom string) (string, bool) {
+	ho := s.Env.HypOwner
+	res, err := s.N.Simulate(ho, 2_000_000, &warptypes.MsgCreateCollateralToken{Owner: ho.Addr.String(), OriginMailbox: s.Env.HypMailbox, OriginDenom: denom})
+	if err != nil || res == nil || len(res.MsgResponses) == 0 {
+		return "", false
+	}
+	var tr warptypes.MsgCreateCollateralTokenResponse
+	if err := gogoproto.Unmarshal(res.MsgResponses[0].Value, &tr); err != nil {
+		return "", false
+	}
+	return tr.Id.String(), true
+}
+
+// execHypToken: the Hyperlane owner creates a further collateral token for a denomination and enrols
+// its routers, in one transaction. Ghost: the transaction (optionally followed by the delivery of an
+// in-flight packet) is only *simulated* on the node, as any client does to estimate gas, and never
+// delivered: whatever it did must be gone.
+func (s *Sim) execHypToken(op Op) {
+	if sdk.ValidateDenom(op.Denom) != nil {
+		s.skip(op, "bad denom")
+		return
+	}
+	s.flushBlockIfPending()
+	ho := s.Env.HypOwner
+	hs := ho.Addr.String()
+	idStr, ok := s.predictTokenID(op.Denom)
+	if !ok {
+		s.skip(op, "token creation does not simulate")
+		return
+	}
+	id, err := hyputil.DecodeHexAddress(idStr)
+	if err != nil {
+		s.skip(op, "bad token id")
+		return
+	}
+	msgs := []sdk.Msg{&warptypes.MsgCreateCollateralToken{Owner: hs, OriginMailbox: s.Env.HypMailbox, OriginDenom: op.Denom}}
+	for _, dom := range HypDomains {
+		msgs = append(msgs, &warptypes.MsgEnrollRemoteRouter{Owner: hs, TokenId: id, RemoteRouter: &warptypes.RemoteRouter{ReceiverDomain: dom, ReceiverContract: "0x" + fmt.Sprintf("%064x", dom), Gas: sdkmath.ZeroInt()}})
+	}
+	if !op.Ghost {
+		s.enqueue(&PendingTx{Signer: ho, Gas: 20_000_000, Msgs: msgs, Meta: &txMeta{OpID: op.ID, Kind: "env", Op: op}})
+		return
+	}
+	if p := s.byOrigin[op.Ref]; p != nil && p.State == PktInFlight {
+		msgs = append(msgs, &channeltypes.MsgRecvPacket{Packet: p.packet(), ProofCommitment: sentinel, ProofHeight: proofHeight, Signer: hs})
+	}
+	_, err = s.N.Simulate(ho, 50_000_000, msgs...)
+	s.Stats.Fault("simulated_tx_discarded")
+	s.Stats.Probe("ghost_token_simulated")
+	s.logf("ghost: simulated creation of token %s for %s with %d messages (err=%v); nothing of it is committed", idStr, op.Denom, len(msgs), err)
 }
 
 func (s *Sim) inflightCount() int {
